@@ -146,6 +146,14 @@ def static_locks(tier, seed, build, repo, verif):
         return
     if residue:
         # a cycle: report the edges that survive peeling with their acquisition sites
+        # (peel from the other side too, for the report only: edges whose source nothing points to lead into the cycle)
+        core = list(residue)
+        while True:
+            keep = [e for e in core if any(f[1] == e[0] for f in core)]
+            if len(keep) == len(core):
+                break
+            core = keep
+        residue = core or residue
         lines, sites = [], {}
         for a, b in residue:
             ss = order["sites"].get(a + " -> " + b, [])
@@ -155,7 +163,7 @@ def static_locks(tier, seed, build, repo, verif):
             lines.append("%s -> %s [%s]" % (a, b, where))
         yield ("repo_lock_order_acyclic", False,
                "Theorem repo_lock_order_acyclic does not hold for the current sources: the lock-class order graph has a cycle "
-               "(two call paths acquire mutexes of these classes in opposite orders). Edges on or leading into the cycle:\n  " + "\n  ".join(lines),
+               "(call paths acquire mutexes of these classes in opposite orders). Edges on the cycle(s), each with up to two acquisition sites:\n  " + "\n  ".join(lines),
                {"cycle_edges": [list(e) for e in residue], "sites": sites, "graph": os.path.join(gen, "order.json")})
         return
     if rc or out.count("Closed under the global context") < 4:
@@ -193,24 +201,36 @@ CONFIG = {
     ],
     "violation_kinds": ["lock-leak", "hang", "pile-", "C14:"],
     "trusted_base": [
-        "translator /verif/translator (Go, go/ast): emits the lock skeleton faithfully; fails on constructs touching locks it does not understand; "
+        "translator /verif/translator (Go, go/ast): emits the lock skeleton and the lock-class order graph faithfully; fails on constructs touching locks it does not understand "
+        "and on nested acquisitions it cannot place (unknown class, same class outside one LockPile without a listed justification); "
         "assumes calls it cannot resolve inside the package (other packages, interfaces, function values) are lock-neutral for the caller, which the "
         "obligation itself establishes for every function of the analysed packages except the unexported helpers listed with justification in translator/summaries.json",
-        "path semantics Checker.exec as the meaning of Go control flow for lock purposes (branches, loops, defer LIFO, panics terminate the process: no recover() in the packages, checked by the translator)",
-        "lock identity = syntactic lock expression; a variable naming a lock is assigned at most once per function (checked by the translator)",
-        "Pile.v: hand-written model of pkg/sync/lock_pile.go (mutexes without ownership, try-lock atomic); anchored by the mutation exercise and the concurrent storms, not by a differential test",
+        "path semantics Checker.exec as the meaning of Go control flow for lock purposes (branches, loops, defer LIFO also on panic, a deferred call that panics does not stop the older ones; "
+        "only explicit panic statements are panics; no recover() in the packages, checked by the translator)",
+        "lock identity = syntactic lock expression (locals defined once as a field path of the receiver/a parameter are rendered through the path); a variable naming a lock is assigned at most once per function (checked by the translator)",
+        "lock-order graph: may-held analysis and call resolution of translator/order.go (static type -> implementers by method set; unknown/foreign static type -> every method of that name and arity in the analysed packages; "
+        "standard library types other than io do not call back; callbacks made by other packages are not followed); lock class = struct type + field; "
+        "the 9 justified nestings and 3 excluded call targets of translator/summaries.json (order)",
+        "Pile.v: hand-written model of pkg/sync/lock_pile.go (mutexes without ownership, try-lock atomic); anchored call-for-call by the pile histories of the harness, the mutation exercise and the concurrent storms",
         "verif hook VerifLockIsFree (TryLock+Unlock), Go harness harness/cmd/locks, Gallina printer, evaluator Corr.v",
     ],
     "manifest": {
-        "level_text": "Machine-checked soundness (Coq) of an executable lock-balance checker over all control-flow paths of a structured skeleton language (branches, unbounded loops, LIFO defers, recursive calls through checked summaries); the skeleton of every function of the seven packages is regenerated from the Go sources on every run (plus pkg/clock, whose goroutines receive a locked mutex from their parent) and the obligation repo_balanced is re-proved by vm_compute. LockPile's algorithm is modelled as a small-step system over threads and try-lockable mutexes with theorems pile_holds_exactly, pile_blocks_bare and no_deadlock for all interleavings. A harness checks the directory mutexes after every call through a TryLock hook and runs concurrent storms with a watchdog.",
-        "level_note": "Trusted: Coq kernel+VM, the translator (fails loudly on unknown lock constructs), the semantics of the skeleton language, the hand-written LockPile model. Partial: absence of livelock under try-lock back-off needs a fairness assumption and is not proved; lock-order between mutex classes outside LockPile is exercised dynamically only.",
-        "technique": "machine-checked proof in Coq (abstract interpretation proved sound against a big-step path semantics; invariant over a small-step concurrent system) + source-to-Coq translation re-checked on every run + dynamic lock-free hook",
+        "level_text": "Machine-checked soundness (Coq) of an executable lock checker over all control-flow paths of a structured skeleton language (branches, unbounded loops, LIFO defers that also run on panics, recursive calls through checked summaries): "
+                      "every returning path has exactly the declared net effect (balanced_sound), no path at any call depth releases a mutex it does not hold relative to its declared entry assumption (balanced_no_fault), and on a function's own panic "
+                      "the locks its pending defers cover are released exactly (balanced_panic_covered). The skeleton of every function of the seven packages (plus pkg/clock) and the lock-class order graph of all blocking nested acquisitions outside LockPile "
+                      "are regenerated from the Go sources on every run; repo_balanced, repo_never_underflows, repo_panic_paths_release_covered and repo_lock_order_acyclic (verified checker: acyclic_sound, order_no_deadlock) are re-proved by vm_compute. "
+                      "LockPile's algorithm is modelled as a small-step system over threads and try-lockable mutexes with theorems pile_holds_exactly, pile_blocks_bare and no_deadlock for all interleavings, and its sequential runner is proved to satisfy the "
+                      "monitor evaluated on the code's mutex calls for all scripts (pile_runner_satisfies_monitor). A harness checks the directory mutexes after every call through a TryLock hook and runs concurrent storms with a watchdog.",
+        "level_note": "Trusted: Coq kernel+VM, the translator (fails loudly on unknown lock constructs and unplaceable nestings), the semantics of the skeleton language, the hand-written LockPile model, the justified nestings kept out of the class graph. "
+                      "Partial: absence of livelock under try-lock back-off needs a fairness assumption and is not proved; implicit panics are not modelled; the order graph is class-level (instances of one class are ordered by listed arguments, not by proof).",
+        "technique": "machine-checked proof in Coq (abstract interpretation proved sound against a big-step path semantics; verified graph-acyclicity checker; invariant over a small-step concurrent system) + source-to-Coq translation re-checked on every run + dynamic lock-free hook",
         "design_ref": "DESIGN.md §4 Locks — C14",
     },
     "assumptions": [
         "partial: livelock-freedom of LockPile's try-lock back-off is not proved (needs scheduler fairness); only deadlock-freedom is",
-        "paths that end in a Go panic are exempt from the balance obligation (no recover() in the analysed packages)",
-        "lock classes outside LockPile (directory -> leaf -> handle pool, scheduler, NFS server) are acquired in a fixed nesting that is exercised by the storms but not proved acyclic",
+        "panicking paths: deferred statements are checked not to underflow and to release what they cover; locks no pending defer covers are exempt (no recover() in the analysed packages); only explicit panic statements are modelled",
+        "declared exemption (summaries.json plow): if nfs40Program.enter() panics while re-entering after a wait, callers' deferred leave() runs with the mutex not held (finding candidate F-C14-a, process is ending)",
+        "lock classes outside LockPile: acyclic class graph proved on every run; same-class nestings (named-attribute subtree, clone->source files, decorator chains) are ordered by justifications listed in translator/summaries.json, not by proof",
         "Go mutex semantics; data-race freedom outside the locks (thorough tier runs under -race)",
     ],
 }
